@@ -4,7 +4,7 @@ from __future__ import annotations
 import z3
 
 from .core import PyRaise
-from .values import DictCell, ExcV, ObjCell, Ref, SeqCell, Sym, Unsupported
+from .values import DictCell, ExcV, ObjCell, Ref, SeqCell, SeqV, Sym, Unsupported
 
 
 def make_substitution(ccls, case_map=None):
@@ -39,8 +39,14 @@ def make_substitution(ccls, case_map=None):
             for name, f in contract_functions(ccls, "raises"):
                 d = I.spec_call(f, bind_by_name(f, ns))
                 for k, c in path.cell(d).d.items():
+                    attrs = None
+                    if isinstance(c, SeqV) and c.items is not None and len(c.items) == 2:
+                        c, attrs = c.items
                     if I.branch(c):
-                        raise PyRaise(ExcV(k, ()))
+                        exc = ExcV(k, ())
+                        if attrs is not None:
+                            exc.attrs.update(path.cell(attrs).d)
+                        raise PyRaise(exc)
             # havoc what the callee may modify
             n = path.ghost["callsite"] = path.ghost.get("callsite", 0) + 1
             mods = getattr(ccls, "modifies", None) or {}
